@@ -450,7 +450,12 @@ impl<'a, L: chain::Listen + ?Sized> ChainNotifier<'a, L> {
 		&self, chain_poller: &mut P, header: &ValidatedBlockHeader,
 	) -> BlockSourceResult<ValidatedBlockHeader> {
 		match self.header_cache.look_up(&header.header.prev_blockhash) {
-			Some(prev_header) => Ok(*prev_header),
+			Some(prev_header) => {
+				// A header served from the cache was validated on its own but never against
+				// `header`, so check the link exactly as a freshly fetched one would be.
+				chain_poller.check_builds_on(header, prev_header)?;
+				Ok(*prev_header)
+			},
 			None => chain_poller.look_up_previous_header(header).await,
 		}
 	}
